@@ -62,11 +62,17 @@ def generate(hint, confkw) -> Generated:
 class Encoding:
     """z3 view of one Generated under one bound (None = unbounded lengths)."""
 
-    def __init__(self, g: Generated, bound, tower=None, node=None):
+    def __init__(self, g: Generated, bound, tower=None, node=None, share=None):
+        """share: another Encoding whose universe, object term and draw are reused (so that two
+        generated programs can be compared on the same x and r)."""
         self.g = g
-        self.U = U = Universe(bound)
-        self.x = U.obj('x')
-        self.r = z3.Int('r')
+        if share is not None:
+            self.U = U = share.U
+            self.x, self.r = share.x, share.r
+        else:
+            self.U = U = Universe(bound)
+            self.x = U.obj('x')
+            self.r = z3.Int('r')
         self.guards = {}
         self.side = {}
         self.results = {}
